@@ -334,6 +334,10 @@ def nd_binop(I, st, op, a, b):
     sa, da = asnd(I, st, a)
     sb, db = asnd(I, st, b)
     if op == "MatMult":
+        if sa == () or sb == ():
+            # unlike np.dot, the @ operator does not accept scalars / 0-d arrays
+            yield st, exc("ValueError", "matmul: Input operand does not have enough dimensions")
+            return
         yield st, dot(I, st, a, b)
         return
     try:
@@ -419,7 +423,9 @@ def nd_compare(I, st, op, a, b):
         return
     out = []
     for x, y in pairs:
-        if op == "Eq":
+        if is_nan(x) or is_nan(y):
+            out.append(op == "NotEq")  # every comparison with NaN is False (also nan == nan), != is True
+        elif op == "Eq":
             out.append(M.eq_values(I, st, x, y))
         elif op == "NotEq":
             out.append(M.znot(M.eq_values(I, st, x, y)))
@@ -437,6 +443,8 @@ def nd_rows(I, st, ref):
     e = st.get(ref)
     if not e.shape:
         raise Unsupported("iteration over 0-d array")
+    if getattr(e, "cursor", 0):
+        raise Unsupported("iteration over an ndarray.flat that next() has already advanced")
     if len(e.shape) == 1:
         return list(e.data)
     step = size(e.shape[1:])
@@ -536,6 +544,9 @@ def nd_getitem(I, st, ref, idx):
         yield st, exc("IndexError", "index out of bounds")
         return
     if shape == ():
+        if dtype_of(e) in ("i", "b"):
+            I.trust("numpy-scalar-types", "A5: an element read from an int64 / bool array is used as a Python int / bool (CPython gives np.int64 / "
+                    "np.bool_: isinstance(x, int), isinstance(x, bool), `x is True` and type(x) differ - not to be relied on in verified code)")
         yield st, e.data[pos[0]]
     else:
         r = _keep_u8(e, NdE(shape, [e.data[p] for p in pos]))
@@ -976,18 +987,28 @@ def make_module(I):
 
     reg("asarray", asarray)
 
-    def zeros(I, st, shape, dtype=None):
-        if isinstance(shape, int):
-            shape = (shape,)
-        shape = tuple(I.iterate(shape, st))
-        if not all(isinstance(s, int) for s in shape):
-            raise Unsupported("np.zeros with symbolic shape")
-        if any(s < 0 for s in shape):
-            return exc("ValueError", "negative dimensions are not allowed")
-        z = 0 if (isinstance(dtype, BuiltinClass) and dtype.name == "int") else Fraction(0)
-        return st.alloc(NdE(shape, [z] * size(shape)))
+    def filled(what, zero):
+        def f(I, st, shape, dtype=None):
+            """np.zeros / np.ones (shape[, dtype]): elements of the REQUESTED dtype (float64 by default): np.ones(2, dtype=int)
+            is an integer array (integer division, truncating stores), np.zeros(2, dtype=bool) holds False"""
+            if isinstance(shape, int) and not isinstance(shape, bool):
+                shape = (shape,)
+            shape = tuple(I.iterate(shape, st))
+            if not all(isinstance(s, int) and not isinstance(s, bool) for s in shape):
+                raise Unsupported("np.%s with symbolic shape" % what)
+            if any(s < 0 for s in shape):
+                return exc("ValueError", "negative dimensions are not allowed")
+            kind = as_dtype_kind(dtype) or "f"
+            if kind not in ("f", "i", "b"):
+                raise Unsupported("np.%s with dtype kind %s" % (what, kind))
+            v = {"f": Fraction(0 if zero else 1), "i": 0 if zero else 1, "b": not zero}[kind]
+            e = NdE(shape, [v] * size(shape))
+            e.dtype = kind
+            return st.alloc(e)
+        return f
 
-    reg("zeros", zeros)
+    reg("zeros", filled("zeros", True))
+    reg("ones", filled("ones", False))
 
     def zeros_like(I, st, a, dtype=None):
         """np.zeros_like(array): zeros of the same shape and element kind (float / int arrays only)"""
@@ -997,21 +1018,11 @@ def make_module(I):
         kind = dtype_of(e)
         if kind not in ("f", "i"):
             raise Unsupported("np.zeros_like of a %s array" % kind)
-        return st.alloc(mark_layout(st, NdE(e.shape, [0 if kind == "i" else Fraction(0)] * size(e.shape)), (a,)))
+        ne = NdE(e.shape, [0 if kind == "i" else Fraction(0)] * size(e.shape))
+        ne.dtype = kind
+        return st.alloc(mark_layout(st, ne, (a,)))
 
     reg("zeros_like", zeros_like)
-
-    def ones(I, st, shape, dtype=None):
-        if isinstance(shape, int):
-            shape = (shape,)
-        shape = tuple(I.iterate(shape, st))
-        if not all(isinstance(s, int) for s in shape):
-            raise Unsupported("np.ones with symbolic shape")
-        if any(s < 0 for s in shape):
-            return exc("ValueError", "negative dimensions are not allowed")
-        return st.alloc(NdE(shape, [Fraction(1)] * size(shape)))
-
-    reg("ones", ones)
 
     def arange(I, st, *a, dtype=None):
         """np.arange(stop) / np.arange(start, stop) with concrete ints (step 1): ints, or floats with dtype=float"""
@@ -1126,7 +1137,7 @@ def make_module(I):
     N["floating"] = BuiltinClass("floating")
     N["number"] = BuiltinClass("number")
     N["nan"] = Opaque("nan")
-    N["inf"] = Opaque("inf")
+    N["inf"] = _M().Inf(1)  # np.inf IS float("inf"): comparisons with every (finite, A1) number are decided
     pi = z3.Real("pi")
     N["pi"] = pi
 
@@ -1171,6 +1182,8 @@ def make_module(I):
         sb, db = asnd(I, st, b)
         if sa != sb:
             return False
+        if any(is_nan(x) for x in da) or any(is_nan(y) for y in db):
+            return False  # equal_nan=False: a NaN element is not equal to anything, itself included
         return M.conj([M.eq_values(I, st, x, y) for x, y in zip(da, db)])
 
     reg("array_equal", _array_equal)
